@@ -278,6 +278,7 @@ func cfgOfRun(lines []map[string]interface{}) obs.Cfg {
 		cfg.Cap = int(f)
 	}
 	cfg.Rv, _ = m["rv"].(bool)
+	cfg.Ring, _ = m["ring"].(bool)
 	for _, k := range []string{"items", "fail"} {
 		arr, _ := m[k].([]interface{})
 		var xs []int
